@@ -754,7 +754,12 @@ class Inputs:
     def pick(self, name, n):
         """A discrete selector in range(n), enumerated by forking: returns a Python int."""
         if self.sym:
-            return int(self.int(name, 0, n - 1))
+            old = self.ctx.MAX_CONCRETIZE
+            self.ctx.MAX_CONCRETIZE = max(old, n + 1)
+            try:
+                return int(self.int(name, 0, n - 1))
+            finally:
+                self.ctx.MAX_CONCRETIZE = old
         return self.int(name, 0, n - 1)
 
     def flag(self, name):
